@@ -28,6 +28,11 @@ func (r *Run) newFrame(fn *ssa.Function, parent *Frame) *Frame {
 		callOrd: map[string]int{}, safeOrd: map[string]int{}, run: r}
 	if parent != nil {
 		fr.inlineDepth = parent.inlineDepth + 1
+		fr.autoInline = parent.autoInline
+	}
+	if r.nextAutoInline {
+		fr.autoInline = true
+		r.nextAutoInline = false
 	}
 	return fr
 }
@@ -125,6 +130,11 @@ func (r *Run) oblige(fr *Frame, kind, sub, name string, reach Term, goal Term, p
 
 func (r *Run) safety(fr *Frame, sub string, reach Term, goal Term, pos token.Pos, text string) {
 	if goal.IsTrue() {
+		return
+	}
+	if fr.autoInline {
+		// the body of a helper without a contract, expanded in place so that its effects are known: its own panic
+		// freedom is not among the claims of the function under verification
 		return
 	}
 	top := r.top
